@@ -1,6 +1,7 @@
 import FeatModel.Model.Proto
 import FeatModel.Model.Poly
 import FeatModel.Model.FE
+import FeatModel.Model.FECfg
 /-! line-protocol driver for the C15 models (reference bases, trafo, chain rule, DOF mappings, interpolation)
 
     `<op> <fam> <S|H> <dim> <mesh body> <op arguments>`, ops `ev`, `ref`, `dofs`, `interp`, `vol`, `tabcheck` -/
@@ -65,6 +66,14 @@ def handle : P String := do
   if op = "vol" then
     let vols := (List.range (m.n m.dim)).map fun c => cellVolume m.kind m.dim (m.entVerts m.dim c)
     return s!"V {showRatsL vols}"
+  if op = "trcfg" then
+    let c ← nat
+    let x ← many m.dim rat
+    let mask ← nat
+    let _poison ← nat
+    if mask < 2 ∨ mask > 126 ∨ mask % 2 = 1 then return "UNSUPPORTED-MASK"
+    if singular m c x ∧ (hasBit mask 8 ∨ hasBit mask 64) then return "ABORT"
+    return s!"G {mask} {showRats (trafoCfg m c x mask)}"
   match famOf fs with
   | none => pure "UNSUPPORTED"
   | some f =>
@@ -117,6 +126,25 @@ def handle : P String := do
         | some tab => out := out ++ s!" {b2s tab.hasGrad} {b2s tab.hasHess}"
         | none => pure ()
       pure out
+    | "evcfg" =>
+      let c ← nat
+      let x ← many m.dim rat
+      let mask ← nat
+      let _poison ← nat
+      match tabOf f m.kind m.dim with
+      | none => pure "UNSUPPORTED"
+      | some tab =>
+        let caps := deliverCaps f tab
+        if !(evcfgMasks.contains mask) ∨ (List.range 6).any (fun b => hasBit mask (2 ^ b) && !hasBit caps (2 ^ b)) then
+          pure "UNSUPPORTED-MASK"
+        else if singular m c x ∧ f ≠ Fam.D0 then pure "ABORT" else
+        match evalCellCfg f m c x mask, evalCellCfg f m c x caps with
+        | some (nl, r), some (_, full) => pure s!"C {nl} {mask} {showRats r} F {caps} {showRats full}"
+        | _, _ => pure "UNSUPPORTED"
+    | "caps" =>
+      match tabOf f m.kind m.dim with
+      | none => pure "UNSUPPORTED"
+      | some tab => pure s!"K {advertisedCaps f m.kind tab} {deliverCaps f tab} 127"
     | "tabcheck" =>
       match tabOf f m.kind m.dim with
       | none => pure "UNSUPPORTED"
